@@ -105,7 +105,7 @@ Section RENDER.
 End RENDER.
 
 Fixpoint bitset_parts (ss : list string) (i : N) : list string :=
-  match ss with [] => [] | s :: r => ("bitShiftLeft(" ++ s ++ ", " ++ string_of_N i ++ ")") :: bitset_parts r (i + 1)%N end.
+  match ss with [] => [] | s :: r => ("bitShiftLeft(toUInt64(" ++ s ++ "), " ++ string_of_N i ++ ")") :: bitset_parts r (i + 1)%N end.
 
 Fixpoint rexpr (e : expr) (o : opts) (st : rst) {struct e} : string * rst :=
   match e with
